@@ -48,9 +48,10 @@ THEOREM_CLASSES = {
     "C14_reader_is_bn_from": "main",
     "C14_literal_roundtrip_partial": "main",
     "C14_int2str_str2int_roundtrip": "main",
-    "C14_str2int_sound": "main", "C14_str2int_shape_separates": "corollary",
+    "C14_str2int_sound": "main", "C14_str2int_complete": "main", "C14_str2int_shape_separates": "corollary",
     "C14_todecsci_reads_back_partial": "main", "C14_todecsci_first_partial": "main",
     "C14_emit_inf_guard": "tripwire", "C14_emit_f32_rounded_first": "tripwire",
+    "C14_emit_f32_block_iff_policy": "tripwire", "C14_emit_f32_block_correct": "corollary",
     "C14_print_dot0_eq_lua": "main", "C14_force_fract_not_int_like": "main",
 }
 MANIFEST_ENTRY = {
@@ -75,7 +76,7 @@ UNPROVED = [
     "'17 digits and back is the identity' is a PREMISE of C14_todecsci_reads_back_partial, not a theorem; the exponent clean-up gsub('([Ee][+-])0+','%1') and the forced '.0' applied after the ladder are not covered by it (C14_force_fract_not_int_like covers the shape of the '.0' only); the float32 ladder (decimaldigits < 16, 9 digits) is not modelled",
     "printing integers: only the int64 base-10 round trip through the model's own str2int is proved (it would also hold for a printer of x + 2^64); no theorem that the digits are the decimal expansion, none for uint2str, other bases, or print's cast chain %lli / %llu for the narrower types (tested)",
     "literal typing (nl_literal_type mirrors visitors.Number): no theorem, tested against the real analyzer; no end-to-end theorem composing read, type, emit and c_eval; C14_literal_roundtrip_partial excludes int128 / uint128 and assumes LP64",
-    "str2int: prefix handling and wrap-around are modelled and tested, C14_str2int_sound gives the shape and the value of everything accepted (soundness); completeness (every numeral of that shape is accepted) and agreement of that shape with Lua's l_str2int are not theorems - the 620-case numeral stream with Lua's tonumber as oracle covers them; the '0b' prefix is a documented extension; decimal strings beyond int64 wrap where Lua gives a float: tested, documented, no theorem",
+    "str2int: prefix handling and wrap-around are modelled and tested, C14_str2int_sound and C14_str2int_complete characterise exactly what is accepted and with which value (numeral_shape); that this shape is Lua's own (l_str2int / luaB_tonumber) is not a theorem - the 620-case numeral stream with Lua's tonumber as oracle covers it; the '0b' prefix is a documented extension; decimal strings beyond int64 wrap where Lua gives a float: tested, documented, no theorem",
     "C14_reader_value_mod / _eq_lua_mod64 are identities of modular arithmetic (classified definitional); Lua's own reader is not modelled - 'the value Lua's reader assigns' is the comment 'wrap64 of the mathematical value' checked by the read stream against Python integers",
     "hard-coded in Model.v although it comes from the source: PRINT_BUF (sizeof(buff) in cbuiltins), the default literal type int64, the suffix table (scraped to Python only), the control flow of add_scalar_literal; the type of the emitted C constant is never probed with a C compiler (_Generic), only its value",
 ]
